@@ -4,6 +4,7 @@ import (
 	"encoding/json"
 	"fmt"
 	"sort"
+	"strings"
 
 	"github.com/enbility/spine-go/api"
 	"github.com/enbility/spine-go/model"
@@ -20,10 +21,67 @@ type AbsDg struct {
 	Val  int      `json:"val"`
 	Ents []AbsEnt `json:"ents"`
 	Ids  []uint64 `json:"ids"`
+	Ucs  []AbsUc  `json:"ucs"`
 	Ctr  uint64   `json:"ctr"`
 	Ack  bool     `json:"ack"`
 	Flt  string   `json:"flt"` // filter shape
 }
+// AbsUc: one use case of the registry
+type AbsUc struct {
+	E     string `json:"e"`
+	Actor string `json:"actor"`
+	Name  string `json:"name"`
+	Ver   string `json:"ver"`
+	Av    bool   `json:"av"`
+	Sc    string `json:"sc"`
+}
+
+// absUcs flattens use-case data into registry records; anything unexpected (foreign device address,
+// missing fields) is made visible in the entity field
+func absUcs(d *model.NodeManagementUseCaseDataType) []AbsUc {
+	r := []AbsUc{}
+	if d == nil {
+		return r
+	}
+	for _, info := range d.UseCaseInformation {
+		e := "?"
+		if info.Address != nil {
+			e = entStr(info.Address.Entity)
+			if info.Address.Device == nil || string(*info.Address.Device) != localDevAddr {
+				e += "@baddev"
+			}
+			if info.Address.Feature != nil {
+				e += "@feature"
+			}
+		}
+		actor := "?"
+		if info.Actor != nil {
+			actor = string(*info.Actor)
+		}
+		if len(info.UseCaseSupport) == 0 {
+			r = append(r, AbsUc{E: e, Actor: actor, Name: "<empty record>"})
+		}
+		for _, u := range info.UseCaseSupport {
+			x := AbsUc{E: e, Actor: actor, Name: "?", Ver: "?"}
+			if u.UseCaseName != nil {
+				x.Name = string(*u.UseCaseName)
+			}
+			if u.UseCaseVersion != nil {
+				x.Ver = string(*u.UseCaseVersion)
+			}
+			x.Av = u.UseCaseAvailable != nil && *u.UseCaseAvailable
+			var sc []string
+			for _, s := range u.ScenarioSupport {
+				sc = append(sc, fmt.Sprint(uint(s)))
+			}
+			x.Sc = strings.Join(sc, ",")
+			r = append(r, x)
+		}
+	}
+	sort.Slice(r, func(i, j int) bool { return fmt.Sprint(r[i]) < fmt.Sprint(r[j]) })
+	return r
+}
+
 type AbsEnt struct {
 	C string `json:"c"`
 	S string `json:"s"`
@@ -40,7 +98,7 @@ type AbsEvent struct {
 
 // value abstraction of the data cells the core configs use: a one-item list whose
 // item 0 carries the integer v; 0 = no data; -2 = anything else
-func dataVal(fn model.FunctionType, data any) int {
+func dataVal(_ model.FunctionType, data any) int {
 	switch d := data.(type) {
 	case nil:
 		return 0
@@ -146,7 +204,7 @@ func filterShape(cmd model.CmdType) string {
 // abstractOut decodes one message written by the stack to peer p's connection
 func (s *System) abstractOut(p *Peer, raw []byte, injected uint64) (AbsDg, *model.DatagramType) {
 	var dg model.Datagram
-	d := AbsDg{Val: -1, Ents: []AbsEnt{}, Ids: []uint64{}}
+	d := AbsDg{Val: -1, Ents: []AbsEnt{}, Ids: []uint64{}, Ucs: []AbsUc{}}
 	if err := json.Unmarshal(raw, &dg); err != nil {
 		d.K = "undecodable"
 		return d, nil
@@ -193,6 +251,8 @@ func (s *System) abstractOut(p *Peer, raw []byte, injected uint64) (AbsDg, *mode
 				d.Ids = append(d.Ids, uint64(*e.SubscriptionId))
 			}
 		}
+	case *model.NodeManagementUseCaseDataType:
+		d.Ucs = absUcs(v)
 	case *model.NodeManagementBindingDataType:
 		for _, e := range v.BindingEntry {
 			d.Ents = append(d.Ents, AbsEnt{C: s.remoteName(p, e.ClientAddress), S: s.localName(e.ServerAddress)})
